@@ -100,3 +100,10 @@ Example C08_example_decodes :
 Proof.
   exists (expected ex_signal). split; [apply decode_ser, C08_example_supported|]. vm_compute. repeat split; reflexivity.
 Qed.
+
+(* why `supported` demands pointer_field < 255: psi computes PointerField(data)+1 in uint8, so a 255-byte filler
+   makes the decoder read the table id from byte 0 (cannot occur inside a 188-byte packet) *)
+Definition ptr255_section : splice_info :=
+  mksi (repeat 255 255) 252 false false 3 0 false 0 0 0 4095 false Null [] [] 0.
+Example C08_pointer_255_refuted : new_scte35 (ser_splice_info ptr255_section) = Err E.UnknownTableID.
+Proof. vm_compute. reflexivity. Qed.
